@@ -222,3 +222,38 @@ def decodability(s):
     if len(unpref) == 1 and len(real_var) == 1:
         return True, widths, 'single variable part'
     return False, widths, 'variable-length part(s) without length prefix: %s' % [show(parts[i])[:80] for i in unpref]
+
+
+BYTE_OPS = ('idxwrite', 'splice', 'xor', 'BitAnd', 'BitOr', 'BitXor', 'Shl', 'Shr', 'Slice', 'SliceMut', 'index', 'repeat', 'Not', 'Add', 'Sub', 'Mul')
+
+
+def group_codec_purity(ctx, rep, rule, sn):
+    """the crate's KeGroup encoders/decoders are pure compositions of the dependency's encoder/decoder on the whole argument:
+    no byte-level edit (masking, slicing, re-tagging) before or after — otherwise encode/decode stop being mutually inverse on bytes"""
+    S = ctx.suite(sn)
+    n = 0
+    for name, pname in (('serialize_pk', 'pk'), ('serialize_sk', 'sk'), ('deserialize_pk', 'bytes'), ('deserialize_sk', 'bytes')):
+        bs = [b for b in S.bodies.values() if b.get('impl_trait_dpath') == 'opaque_ke::key_exchange::group::KeGroup' and b.get('name') == name]
+        if len(bs) != 1:
+            rep.ob(rule, 'KeGroup::%s instance found' % name, False, 'instances=%d' % len(bs), '', sn)
+            continue
+        s = ctx.summary(sn, bs[0]['generic_path'], params=[Sym(pname)])
+        w = where_of(s)
+        for p in s.ok_paths:
+            val = p.payload
+            bad = subterms(val, lambda t: (t[0] == 'app' and t[1] in BYTE_OPS) or t[0] == 'cat' or (t[0] == 'bytes' and len(t[1]) > 0))
+            uses = mentions(val, Sym(pname))
+            # decoders: every dependency decoder is applied to the input itself
+            partial = []
+            if name.startswith('deserialize'):
+                for e in p.events:
+                    if e[0] == 'call' and e[2] and mentions(e[2][0], Sym(pname)) and e[2][0] != Sym(pname) and e[1] != 'call':
+                        x = e[2][0]
+                        if subterms(x, lambda t: t[0] == 'app' and t[1] in BYTE_OPS):
+                            partial.append(show(x)[:80])
+            good = not bad and uses and not partial
+            n += int(good)
+            rep.ob(rule, 'KeGroup::%s is the dependency codec applied to the whole argument, without byte-level edits' % name, good,
+                   'result %s ; byte-level operations: %s %s' % (show(val)[:200], [show(b)[:60] for b in bad[:3]], partial[:2]), w, sn,
+                   sample='%s(%s) = %s' % (name, pname, show(val)[:120]))
+    return n
